@@ -246,7 +246,7 @@ func Archive(files []File) []byte {
 	return buf.Bytes()
 }
 
-// DirEntry is one entry of a feed directory: Kind 0 readable file holding Msg, 1 unreadable (a sub-directory), 2 corrupt bytes, 3 empty file.
+// DirEntry is one entry of a feed directory: Kind 0 readable file holding Msg, 1 unreadable (a sub-directory), 2 corrupt bytes, 3 empty file, 4 a symbolic link to a readable file holding Msg.
 type DirEntry struct {
 	Name string
 	Kind int
@@ -268,6 +268,16 @@ func Dir(entries []DirEntry) string {
 			err = os.WriteFile(p, BadBytes(), 0o644)
 		case 3:
 			err = os.WriteFile(p, nil, 0o644)
+		case 4: // a symbolic link to a readable file kept elsewhere
+			var targets string
+			targets, err = os.MkdirTemp("", "veriftargets")
+			if err == nil {
+				tempDirs = append(tempDirs, targets)
+				target := filepath.Join(targets, "target")
+				if err = os.WriteFile(target, Marshal(e.Msg), 0o644); err == nil {
+					err = os.Symlink(target, p)
+				}
+			}
 		default:
 			err = os.WriteFile(p, Marshal(e.Msg), 0o644)
 		}
